@@ -14,6 +14,7 @@ namespace {
 
 enum { K_COMMIT_REQ, K_OPENING, K_SIGN_REQ, K_SIG, K_NK };
 const char *const KN[] = {"COMMIT_REQ", "OPENING", "SIGN_REQ", "SIG"};
+enum { F_MALLEATE = NF_WORLD1 };
 
 struct DevRec { int type; Bytes in; Bytes out; Bytes raw; };   // type 0: signer_commit(msg||c) -> opening33 ; 1: anti_exfil_sign(msg||rho) -> sig64
 
@@ -130,7 +131,8 @@ struct AexSim {
         }
     }
     bool dev_produced(int type, const Bytes &in, const Bytes &out) const {
-        for (auto &d : dev) if (d.type == type && d.raw == in && d.out == out) return true;
+        Bytes c = canon(in);   // the device signs msg mod n: (0, x) and (n, x) are one request
+        for (auto &d : dev) if (d.type == type && d.in == c && d.out == out) return true;
         return false;
     }
     // ---------------------------------------------------------------- host
@@ -245,6 +247,14 @@ struct AexSim {
             if (node & 1) { L(secp256k1_context_destroy(dctx)); dctx = L(secp256k1_context_create(SECP256K1_CONTEXT_NONE)); H.run_faulty = true; r.ev("device restarted"); }
             else { H.run_faulty = true; if (H.run < nruns) host_reboot(); }
         };
+        net.world_fault = [&](int f, Msg &m, int64_t, int64_t) -> bool {
+            // third-party malleation of the ECDSA signature in transit: (r, s) -> (r, n - s)
+            if (f != F_MALLEATE || m.kind != K_SIG || m.bytes.size() != 64) return false;
+            ref::U256 sv = ref::U256::from_be(&m.bytes[32]);
+            if (sv.is_zero() || !(sv < ref::FN.m)) return false;
+            ref::FN.neg(sv).to_be(&m.bytes[32]);
+            return true;
+        };
         host_start_run(0, false);
         bool capped = false;
         while (r.ok && net.step(&capped)) {}
@@ -277,7 +287,7 @@ static Plan aex_generate(uint64_t seed, int tier) {
             int kind = (int)g.below(K_NK); bool to_dev = (kind == K_COMMIT_REQ || kind == K_SIGN_REQ);
             int f; uint64_t w = g.below(100);
             if (w < 12) f = NF_DROP; else if (w < 27) f = NF_DUP; else if (w < 50) f = NF_FLIP; else if (w < 58) f = NF_SET; else if (w < 64) f = NF_ZERO; else if (w < 69) f = NF_FF;
-            else if (w < 75) f = NF_TRUNC; else if (w < 80) f = NF_EXT; else if (w < 86) f = NF_SPLICE; else f = NF_MISDELIVER;
+            else if (w < 75) f = NF_TRUNC; else if (w < 80) f = NF_EXT; else if (w < 86) f = NF_SPLICE; else if (w < 94) f = NF_MISDELIVER; else { f = F_MALLEATE; kind = K_SIG; to_dev = false; }
             o.a = {kind, (int64_t)g.below(nruns), (int64_t)g.range(1, 2), to_dev ? 0 : 1, to_dev ? 1 : 0, f, (int64_t)g.below(1 << 16), (int64_t)g.below(256)};
             p.ops.push_back(o);
         }
